@@ -1058,6 +1058,26 @@ func mutatePack(rng *rand.Rand, b []byte) []byte {
 				}
 			case fd.Message() != nil && !fd.IsMap():
 				walk(v.Message().Interface(), depth+1)
+			case fd.Kind() == protoreflect.EnumKind && !fd.IsList():
+				// another label of the same enum (a TEXT value whose payload is an object, an
+				// operation body under the wrong element type, ...) or a number outside it
+				if rng.Intn(6) == 0 {
+					vals := fd.Enum().Values()
+					n := protoreflect.EnumNumber(vals.Get(rng.Intn(vals.Len())).Number())
+					if rng.Intn(5) == 0 {
+						n = protoreflect.EnumNumber([]int32{-1, 99, 1 << 30}[rng.Intn(3)])
+					}
+					r.Set(fd, protoreflect.ValueOfEnum(n))
+				}
+			case fd.Kind() == protoreflect.BytesKind && !fd.IsList() && !fd.IsMap():
+				// nested encodings travel as bytes (element values, snapshots, actor ids)
+				if rng.Intn(10) == 0 {
+					r.Set(fd, protoreflect.ValueOfBytes(mutateBytes(rng, v.Bytes())))
+				}
+			case fd.Kind() == protoreflect.StringKind && !fd.IsList() && !fd.IsMap():
+				if rng.Intn(14) == 0 {
+					r.Set(fd, protoreflect.ValueOfString([]string{"", "\x00", strings.Repeat("k", 1<<12), "$.a[", "\xff\xfe"}[rng.Intn(5)]))
+				}
 			case fd.Kind().String() == "int32" || fd.Kind().String() == "int64" || fd.Kind().String() == "uint32":
 				if rng.Intn(8) == 0 {
 					switch fd.Kind().String() {
